@@ -77,6 +77,29 @@ def cli_job(rng, w):
     return job, len([p for p in params if p.split(":")[0] not in ("base", "group", "addr_unit")]) + ndef
 
 
+def bucket_program(rng):
+    """Rules that one instruction can match although the matcher files them under different literal prefixes (a mnemonic
+    with a glued sub-rule suffix `ld{s: size}` next to the literal spelling `ld.b`, a rule that starts with a parameter
+    next to one that starts with a literal), used by instructions that end in a diagnostic listing every candidate
+    (all out of range, or two of equal size)."""
+    mn = rng.choice(["ld", "mov", "add", "st"])
+    sufs = rng.sample([".b", ".w", ".l", ".q"], rng.randint(2, 3))
+    lines = ["#subruledef size", "{"] + ["    %s => 0x%02x" % (sf, k) for k, sf in enumerate(sufs)] + ["}"]
+    lines += ["#subruledef reg", "{", "    r0 => 0x0", "    r1 => 0x1", "}"]
+    lines += ["#ruledef", "{",
+              "    %s{s: size} {v: u16} => 0x10 @ s @ v" % mn,
+              "    %s%s {v: u8} => 0x20 @ 0x%s @ v" % (mn, sufs[0], "0000" if rng.random() < 0.5 else "00"),
+              "    %s%s {v: s8} => 0x30 @ 0x0000 @ v" % (mn, sufs[0]),
+              "    {r: reg} gets {v: u8} => 0x40 @ r @ v",
+              "    r0 gets {v: u4} => 0x5 @ v",
+              "}"]
+    body = []
+    for _ in range(rng.randint(1, 4)):
+        body.append(rng.choice(["%s%s 0x12345" % (mn, sufs[0]), "%s%s 5" % (mn, sufs[0]), "%s%s -1" % (mn, sufs[0]), "%s%s 300" % (mn, sufs[1]),
+                                "r0 gets 999", "r0 gets 3", "r1 gets 256", "%s%s 7" % (mn, sufs[-1])]))
+    return "\n".join(lines + body) + "\n"
+
+
 def with_sibling_files(rng, w):
     """The same program plus 2-6 included files of identical shape (every file declares its first symbol at byte
     offset 0, the next at the same later offset, ...): anything keyed on a position within a file ties across files."""
@@ -125,6 +148,8 @@ def shard(ctx):
             w = workload.draw(rng, kinds=("isa", "casc", "corpus", "mut", "isamut", "macro"), weights=(3, 3, 3, 3, 1, 4))
             if rng.random() < 0.3:
                 w = with_sibling_files(rng, w)
+            if rng.random() < 0.08:
+                w = {"kind": "bucket", "files": {"main.asm": bucket_program(rng)}, "roots": ["main.asm"], "std": False, "tag": "bucket"}
             nparams = 0
             if rng.random() < 0.3:
                 job, nparams = cli_job(rng, w)
